@@ -376,12 +376,12 @@ func (vfs *MemFS) Lstat(path string) (fs.FileInfo, error) {
 		op = "CreateFile"
 	}
 
-	_, child, pi, err := vfs.searchNode(path, slmLstat)
+	_, child, _, err := vfs.searchNode(path, slmLstat)
 	if err != vfs.err.FileExists || child == nil {
 		return nil, &fs.PathError{Op: op, Path: path, Err: err}
 	}
 
-	fst := child.fillStatFrom(pi.Part())
+	fst := child.fillStatFrom(vfs.Base(path))
 
 	return fst, nil
 }
@@ -921,12 +921,12 @@ func (vfs *MemFS) Stat(path string) (fs.FileInfo, error) {
 		op = "CreateFile"
 	}
 
-	_, child, pi, err := vfs.searchNode(path, slmStat)
+	_, child, _, err := vfs.searchNode(path, slmStat)
 	if err != vfs.err.FileExists || child == nil {
 		return nil, &fs.PathError{Op: op, Path: path, Err: err}
 	}
 
-	fst := child.fillStatFrom(pi.Part())
+	fst := child.fillStatFrom(vfs.Base(path))
 
 	return fst, nil
 }
